@@ -141,29 +141,60 @@ theorem getV_congr_flav (h : Heap) (r : Ref) {p q : Path} (e : p.map PKey.flav =
 
 end MlModel.Tree
 
-/-! ## sets: on a path that EXISTS the flavour is invisible too -/
+/-! ## copying sets: on a path that EXISTS the flavour is invisible too
+
+(`d[k] = v` keeps the key object an existing entry already has; a FRESH key is stored as the object given, so
+`{..., Index(1): v}` and `{..., 1: v}` are different results — `Ex` therefore asks the last key to exist when it
+addresses a dict.) -/
 namespace MlModel.Tree
 
 theorem PKey.flav_ne_self {k : PKey} (h : k ≠ .self) : k.flav ≠ .self := fun e => h ((PKey.flav_eq_self_iff k).mp e)
 theorem PKey.flav_ne_skip {k : PKey} (h : k ≠ .skip) : k.flav ≠ .skip := by cases k <;> simp_all [PKey.flav]
+theorem PKey.flav_eq_skip_iff (k : PKey) : k.flav = .skip ↔ k = .skip := by cases k <;> simp [PKey.flav]
 
-theorem assign_flav (h : Heap) (res : Ref) (k : PKey) (c : Ref) : assign h res k.flav c = assign h res k c := by
-  unfold assign; simp
+/-- `result[k] = c` cannot tell the flavours apart unless `result` is a dict in which `k` is not yet a key. -/
+theorem assign_flav (h : Heap) (res : Ref) (k : PKey) (c : Ref)
+    (hd : ∀ cur, h[res]? = some (.dict cur) → ∃ x, dictGet cur k.toDKey = some x) :
+    assign h res k.flav c = assign h res k c := by
+  unfold assign
+  cases hn : h[res]? with
+  | none => rfl
+  | some n =>
+    cases n with
+    | dict cur =>
+      obtain ⟨x, hx⟩ := hd cur hn
+      have hx' : dictGet cur k.stored = some x := by rw [← dictGet_norm, PKey.stored_norm]; exact hx
+      dsimp only
+      rw [dictSet_congr_of_mem cur (k := k.stored) (k' := k.flav.stored) (by simp) hx']
+    | list cur => simp
+    | tuple _ => rfl
+    | leaf _ => rfl
+    | null => rfl
+    | nd _ _ _ => rfl
+    | buf _ => rfl
 
 theorem mapPre_flav (h1 : Heap) (es : List (DKey × Ref)) (k : PKey) : mapPre h1 es k.flav = mapPre h1 es k := by
   unfold mapPre; simp
 
-/-- `setMap` uses its key only through `toDKey` / `asInt`; the recursion is entered at one point. -/
+/-- `setMap` uses its key through `toDKey` / `asInt`, except for the key object a FRESH entry gets (`ha`: after
+the recursion `k` is a key of `result`); the recursion is entered at one point (`hR`). -/
 theorem setMap_flav {R R' : Heap → Ref → Res Ref} (h1 : Heap) (res : Ref) (es : List (DKey × Ref)) (k : PKey)
-    (hR : R' (mapPre h1 es k).1 (mapPre h1 es k).2 = R (mapPre h1 es k).1 (mapPre h1 es k).2) :
+    (hR : R' (mapPre h1 es k).1 (mapPre h1 es k).2 = R (mapPre h1 es k).1 (mapPre h1 es k).2)
+    (ha : ∀ h3 c, R (mapPre h1 es k).1 (mapPre h1 es k).2 = (h3, .ok c) →
+      ∀ cur, h3[res]? = some (.dict cur) → ∃ x, dictGet cur k.toDKey = some x) :
     setMap R' h1 res es k.flav = setMap R h1 res es k := by
   rw [setMap_unfold, setMap_unfold, mapPre_flav, hR]
-  simp only [assign_flav]
+  rcases hr : R (mapPre h1 es k).1 (mapPre h1 es k).2 with ⟨h3, e | c⟩
+  · rfl
+  · dsimp only
+    rw [assign_flav h3 res k c (ha h3 c hr)]
 
 theorem setSeq_flav {R R' : Heap → Ref → Res Ref} (h1 : Heap) (res : Ref) (rs : List Ref) (k : PKey)
     (hR : ∀ i j child, k.asInt = some i → resolveIdx (seqPre h1 res rs i).2.length i = some j →
       (seqPre h1 res rs i).2[j]? = some child →
-      R' (seqPre h1 res rs i).1 child = R (seqPre h1 res rs i).1 child) :
+      R' (seqPre h1 res rs i).1 child = R (seqPre h1 res rs i).1 child)
+    (ha : ∀ i child h3 c, k.asInt = some i → R (seqPre h1 res rs i).1 child = (h3, .ok c) →
+      ∀ cur, h3[res]? = some (.dict cur) → ∃ x, dictGet cur k.toDKey = some x) :
     setSeq R' h1 res rs k.flav = setSeq R h1 res rs k := by
   rw [setSeq_unfold, setSeq_unfold, PKey.flav_asInt]
   cases hk : k.asInt with
@@ -179,7 +210,10 @@ theorem setSeq_flav {R R' : Heap → Ref → Res Ref} (h1 : Heap) (res : Ref) (r
       | some child =>
         dsimp only
         rw [hR i j child hk hj hc]
-        simp only [assign_flav]
+        rcases hr : R (seqPre h1 res rs i).1 child with ⟨h3, e | c⟩
+        · rfl
+        · dsimp only
+          rw [assign_flav h3 res k c (ha i child h3 c hk hr)]
 
 /-- a successful `seq[k]` names the child the set recurses into, and the append branch is not taken -/
 theorem seqGet_pre {rs : List Ref} {k : PKey} {c : Ref} (hs : seqGet rs k = .ok c) (h1 : Heap) (res : Ref) :
@@ -192,9 +226,7 @@ theorem seqGet_pre {rs : List Ref} {k : PKey} {c : Ref} (hs : seqGet rs k = .ok 
   have hne : i ≠ (rs.length : Int) := by
     intro e
     subst e
-    have : resolveIdx rs.length (rs.length : Int) = none := by
-      unfold resolveIdx; simp
-    rw [this] at hs; simp at hs
+    rw [resolveIdx_len_none] at hs; simp at hs
   have hpre : seqPre h1 res rs i = (h1, rs) := by unfold seqPre; simp [hne]
   rw [hpre] at hj hc ⊢
   dsimp only at hj hc
@@ -203,49 +235,59 @@ theorem seqGet_pre {rs : List Ref} {k : PKey} {c : Ref} (hs : seqGet rs k = .ok 
   rw [hc] at hs
   exact ⟨rfl, by cases hs; rfl⟩
 
+/-- the cell `result` of a copied sequence is still a list when the recursion starts -/
+theorem seqPre_res (h : Heap) (rs : List Ref) (i : Int) :
+    ∃ rs', (seqPre (h.push (.list rs)) h.size rs i).1[h.size]? = some (.list rs') ∧
+      h.size < (seqPre (h.push (.list rs)) h.size rs i).1.size := by
+  unfold seqPre
+  split
+  · exact ⟨_, write_get_eq _ _ (by simp; omega), by simp; omega⟩
+  · exact ⟨rs, push_get_size _ _, by simp⟩
+
 theorem setNd_flav (R : Heap → Ref → Res Ref) (inPlace : Bool) (h : Heap) (tree b off : Nat) (shape : List Nat)
     (k : PKey) : setNd R inPlace h tree b off shape k.flav = setNd R inPlace h tree b off shape k := by
   unfold setNd; simp
 
-end MlModel.Tree
-
-namespace MlModel.Tree
-
-/-- The key path `p` **exists** below `t` as far as a set needs it: every key but the last addresses a stored
-child (dict entry / sequence position) — so `_default_tree` is never asked to build structure for a key —
-the last key may be fresh (a new dict key, the append index), whatever follows `SELF` / `SKIP` is ignored, and
-so is whatever lies below an ndarray (existing or not: nothing is ever built inside an array). -/
+/-- The key path `p` **exists** below `t` as far as a copying set needs it: every key but the last addresses a
+stored child (dict entry / sequence position) — so `_default_tree` is never asked to build structure for a key —
+the last key may be the append index of a sequence but must be a key already when it addresses a dict (a fresh
+dict key is stored as the object given), whatever follows `SELF` / `SKIP` is ignored, and so is whatever lies
+below an ndarray (existing or not: nothing is ever built inside an array). -/
 inductive Ex (h : Heap) : Ref → Path → Prop
   | nil (t : Ref) : Ex h t []
   | self (t : Ref) (ks : Path) : Ex h t (.self :: ks)
   | skip (t : Ref) (ks : Path) : Ex h t (.skip :: ks)
-  | last {t : Ref} {n : Node} (k : PKey) : h[t]? = some n → n ≠ .null → Ex h t [k]
+  | last {t : Ref} {n : Node} (k : PKey) : h[t]? = some n → n ≠ .null →
+      (∀ es, n = .dict es → ∃ x, dictGet es k.toDKey = some x) → Ex h t [k]
   | step {t : Ref} {n : Node} {k : PKey} {c : Ref} {ks : Path} : h[t]? = some n → n.slotGet k = .ok c →
       Ex h c ks → Ex h t (k :: ks)
   | nd {t b off : Ref} {shape : List Nat} (k : PKey) (ks : Path) : h[t]? = some (.nd b off shape) → Ex h t (k :: ks)
 
-theorem Ex.mono {h h' : Heap} (e : ∀ (r : Nat) (n : Node), h[r]? = some n → h'[r]? = some n) {t : Ref} {p : Path} (x : Ex h t p) :
-    Ex h' t p := by
+theorem Ex.mono {h h' : Heap} (e : ∀ (r : Nat) (n : Node), h[r]? = some n → h'[r]? = some n) {t : Ref} {p : Path}
+    (x : Ex h t p) : Ex h' t p := by
   induction x with
   | nil t => exact .nil t
   | self t ks => exact .self t ks
   | skip t ks => exact .skip t ks
-  | last k hn hne => exact .last k (e _ _ hn) hne
+  | last k hn hne hd => exact .last k (e _ _ hn) hne hd
   | step hn hs _ ih => exact .step (e _ _ hn) hs ih
   | nd k ks hn => exact .nd k ks (e _ _ hn)
 
 theorem push_mono (h : Heap) (m : Node) : ∀ (r : Nat) (n : Node), h[r]? = some n → (h.push m)[r]? = some n := by
   intro r n hn
-  have hr : r < h.size := by
-    rcases Nat.lt_or_ge r h.size with hlt | hge
-    · exact hlt
-    · rw [Array.getElem?_eq_none hge] at hn; cases hn
-  rw [Array.getElem?_push_lt hr, ← hn, Array.getElem?_eq_getElem hr]
+  rw [push_get_lt h m (lt_size_of_get hn)]; exact hn
 
-/-- one key, a non-`NullMap` object: the flavour of the key is invisible to `_set_by_path` -/
-theorem setPath_flav_last (strict ip : Bool) {h : Heap} {t : Ref} {n : Node} (k : PKey) (v : Ref)
-    (hn : h[t]? = some n) (hne : n ≠ .null) :
-    setPath strict ip h t [k.flav] v = setPath strict ip h t [k] v := by
+/-- what the recursion of a copying set leaves in the fresh cell `result` -/
+theorem copy_res_kept (strict : Bool) (h1 : Heap) {res : Ref} (hres : res < h1.size) (c : Ref) (ks : Path) (v : Ref)
+    {h3 : Heap} {c' : Ref} (hr : setPath strict false h1 c ks v = (h3, .ok c')) : h3[res]? = h1[res]? := by
+  have := setPath_extends strict h1 c ks v
+  rw [hr] at this
+  exact this.2 res hres
+
+/-- one key, a non-`NullMap` object (in which the key exists if it is a dict) -/
+theorem setPath_flav_last (strict : Bool) {h : Heap} {t : Ref} {n : Node} (k : PKey) (v : Ref)
+    (hn : h[t]? = some n) (hne : n ≠ .null) (hd : ∀ es, n = .dict es → ∃ x, dictGet es k.toDKey = some x) :
+    setPath strict false h t [k.flav] v = setPath strict false h t [k] v := by
   by_cases hk1 : k = .self
   · subst hk1; rfl
   by_cases hk2 : k = .skip
@@ -256,19 +298,32 @@ theorem setPath_flav_last (strict ip : Bool) {h : Heap} {t : Ref} {n : Node} (k 
   | null => exact absurd rfl hne
   | leaf x => rfl
   | buf xs => rfl
-  | dict es => dsimp only; rw [setMap_flav (R := fun h' c => setPath strict ip h' c [] v) _ _ _ _ rfl]
-  | list rs => dsimp only; rw [setSeq_flav (R := fun h' c => setPath strict ip h' c [] v) _ _ _ _ (fun _ _ _ _ _ _ => rfl)]
+  | dict es =>
+    dsimp only
+    obtain ⟨x, hx⟩ := hd es rfl
+    simp only [Bool.false_eq_true, ↓reduceIte, alloc]
+    rw [setMap_flav (R := fun h' c => setPath strict false h' c [] v) _ _ _ _ rfl]
+    intro h3 c hr cur hcur
+    simp only [mapPre, hx] at hr
+    rw [copy_res_kept strict (h.push (.dict es)) (by simp) x [] v hr, push_get_size] at hcur
+    cases hcur; exact ⟨x, hx⟩
+  | list rs =>
+    dsimp only
+    simp only [Bool.false_eq_true, ↓reduceIte, alloc]
+    rw [setSeq_flav (R := fun h' c => setPath strict false h' c [] v) _ _ _ _ (fun _ _ _ _ _ _ => rfl)]
+    intro i child h3 c _ hr cur hcur
+    obtain ⟨rs', hrs, hlt⟩ := seqPre_res h rs i
+    rw [copy_res_kept strict _ hlt child [] v hr, hrs] at hcur
+    cases hcur
   | tuple rs =>
     dsimp only
-    cases ip
-    · simp only [Bool.false_eq_true, ↓reduceIte]
-      rw [setSeq_flav (R := fun h' c => setPath strict false h' c [] v) _ _ _ _ (fun _ _ _ _ _ _ => rfl)]
-    · rfl
+    simp only [Bool.false_eq_true, ↓reduceIte, alloc]
+    rw [setSeq_flav (R := fun h' c => setPath strict false h' c [] v) _ _ _ _ (fun _ _ _ _ _ _ => rfl)]
+    intro i child h3 c _ hr cur hcur
+    obtain ⟨rs', hrs, hlt⟩ := seqPre_res h rs i
+    rw [copy_res_kept strict _ hlt child [] v hr, hrs] at hcur
+    cases hcur
   | nd b off shape => dsimp only; rw [setNd_flav]
-
-end MlModel.Tree
-
-namespace MlModel.Tree
 
 /-- Below an ndarray (or a scalar read from one) the flavour never matters, whether or not the path exists:
 no `_default_tree` is ever built inside an array. -/
@@ -314,30 +369,31 @@ theorem setPath_flav_nd (strict ip : Bool) (v : Ref) : ∀ (p : Path) (h : Heap)
               · exact Or.inr ⟨_, _, _, push_get_size _ _⟩
 
 theorem Ex.cons_cases {h : Heap} {t : Ref} {k : PKey} {ks : Path} (x : Ex h t (k :: ks)) :
-    k = .self ∨ k = .skip ∨ (ks = [] ∧ ∃ n, h[t]? = some n ∧ n ≠ .null) ∨
+    k = .self ∨ k = .skip ∨
+      (ks = [] ∧ ∃ n, h[t]? = some n ∧ n ≠ .null ∧ ∀ es, n = .dict es → ∃ x, dictGet es k.toDKey = some x) ∨
       (∃ n c, h[t]? = some n ∧ n.slotGet k = .ok c ∧ Ex h c ks) ∨ ∃ b off shape, h[t]? = some (.nd b off shape) := by
   cases x with
   | self => exact Or.inl rfl
   | skip => exact Or.inr (Or.inl rfl)
-  | last _ hn hne => exact Or.inr (Or.inr (Or.inl ⟨rfl, _, hn, hne⟩))
+  | last _ hn hne hd => exact Or.inr (Or.inr (Or.inl ⟨rfl, _, hn, hne, hd⟩))
   | step hn hs hx => exact Or.inr (Or.inr (Or.inr (Or.inl ⟨_, _, hn, hs, hx⟩)))
   | nd _ _ hn => exact Or.inr (Or.inr (Or.inr (Or.inr ⟨_, _, _, hn⟩)))
 
-/-- **On a path that exists, `_set_by_path` cannot tell `Index(i)` from `i`** — copying or in place, strict or
-not, on every heap: same resulting heap, same result (or same error). -/
-theorem setPath_flav (strict ip : Bool) (v : Ref) : ∀ (p : Path) (h : Heap) (t : Ref), Ex h t p →
-    setPath strict ip h t (p.map PKey.flav) v = setPath strict ip h t p v := by
+/-- **On a path that exists, a copying `_set_by_path` cannot tell `Index(i)` from `i`** — strict or not, on
+every heap: same resulting heap (the key objects stored in every dict included), same result or same error. -/
+theorem setPath_flav (strict : Bool) (v : Ref) : ∀ (p : Path) (h : Heap) (t : Ref), Ex h t p →
+    setPath strict false h t (p.map PKey.flav) v = setPath strict false h t p v := by
   intro p
   induction p with
   | nil => intro h t _; rfl
   | cons k ks ih =>
     intro h t x
-    rcases x.cons_cases with rfl | rfl | ⟨rfl, n, hn, hne⟩ | ⟨n, c, hn, hs, hx⟩ | ⟨b, off, shape, hn⟩
+    rcases x.cons_cases with rfl | rfl | ⟨rfl, n, hn, hne, hd⟩ | ⟨n, c, hn, hs, hx⟩ | ⟨b, off, shape, hn⟩
     · rfl
     · rfl
-    · exact setPath_flav_last strict ip k v hn hne
+    · exact setPath_flav_last strict k v hn hne hd
     rotate_left
-    · exact setPath_flav_nd strict ip v (k :: ks) h t (Or.inr ⟨b, off, shape, hn⟩)
+    · exact setPath_flav_nd strict false v (k :: ks) h t (Or.inr ⟨b, off, shape, hn⟩)
     · by_cases hk1 : k = .self
       · subst hk1; rfl
       by_cases hk2 : k = .skip
@@ -356,48 +412,40 @@ theorem setPath_flav (strict ip : Bool) (v : Ref) : ∀ (p : Path) (h : Heap) (t
           cases hd : dictGet es k.toDKey with
           | none => rw [hd] at hs; cases hs
           | some c' => rw [hd] at hs; cases hs; rfl
-        cases ip
-        · simp only [Bool.false_eq_true, ↓reduceIte, alloc]
-          rw [setMap_flav (R := fun h' c => setPath strict false h' c ks v)]
-          simp only [mapPre, hg]
+        simp only [Bool.false_eq_true, ↓reduceIte, alloc]
+        rw [setMap_flav (R := fun h' c => setPath strict false h' c ks v)]
+        · simp only [mapPre, hg]
           exact ih _ c (hx.mono (push_mono h _))
-        · simp only [↓reduceIte]
-          rw [setMap_flav (R := fun h' c => setPath strict true h' c ks v)]
-          simp only [mapPre, hg]
-          exact ih _ c hx
+        · intro h3 c' hr cur hcur
+          simp only [mapPre, hg] at hr
+          rw [copy_res_kept strict (h.push (.dict es)) (by simp) c ks v hr, push_get_size] at hcur
+          cases hcur; exact ⟨c, hg⟩
       | list rs =>
         dsimp only
         have hs' : seqGet rs k = .ok c := by simpa [Node.slotGet] using hs
-        cases ip
-        · simp only [Bool.false_eq_true, ↓reduceIte, alloc]
-          rw [setSeq_flav (R := fun h' c => setPath strict false h' c ks v)]
-          intro i j child hk hj hc
+        simp only [Bool.false_eq_true, ↓reduceIte, alloc]
+        rw [setSeq_flav (R := fun h' c => setPath strict false h' c ks v)]
+        · intro i j child hk hj hc
           obtain ⟨e1, e2⟩ := seqGet_pre hs' (h.push (.list rs)) h.size i j child hk hj hc
           rw [e1, e2]
           exact ih _ c (hx.mono (push_mono h _))
-        · simp only [↓reduceIte]
-          rw [setSeq_flav (R := fun h' c => setPath strict true h' c ks v)]
-          intro i j child hk hj hc
-          obtain ⟨e1, e2⟩ := seqGet_pre hs' h t i j child hk hj hc
-          rw [e1, e2]
-          exact ih _ c hx
+        · intro i child h3 c' _ hr cur hcur
+          obtain ⟨rs', hrs, hlt⟩ := seqPre_res h rs i
+          rw [copy_res_kept strict _ hlt child ks v hr, hrs] at hcur
+          cases hcur
       | tuple rs =>
         dsimp only
         have hs' : seqGet rs k = .ok c := by simpa [Node.slotGet] using hs
-        cases ip
-        · simp only [Bool.false_eq_true, ↓reduceIte, alloc]
-          rw [setSeq_flav (R := fun h' c => setPath strict false h' c ks v)]
-          intro i j child hk hj hc
+        simp only [Bool.false_eq_true, ↓reduceIte, alloc]
+        rw [setSeq_flav (R := fun h' c => setPath strict false h' c ks v)]
+        · intro i j child hk hj hc
           obtain ⟨e1, e2⟩ := seqGet_pre hs' (h.push (.list rs)) h.size i j child hk hj hc
           rw [e1, e2]
           exact ih _ c (hx.mono (push_mono h _))
-        · rfl
-
-end MlModel.Tree
-
-namespace MlModel.Tree
-
-theorem PKey.flav_eq_skip_iff (k : PKey) : k.flav = .skip ↔ k = .skip := by cases k <;> simp [PKey.flav]
+        · intro i child h3 c' _ hr cur hcur
+          obtain ⟨rs', hrs, hlt⟩ := seqPre_res h rs i
+          rw [copy_res_kept strict _ hlt child ks v hr, hrs] at hcur
+          cases hcur
 
 /-- existence does not depend on the flavour of the keys -/
 theorem Ex.congr {h : Heap} {t : Ref} {p : Path} (x : Ex h t p) :
@@ -418,12 +466,13 @@ theorem Ex.congr {h : Heap} {t : Ref} {p : Path} (x : Ex h t p) :
       simp only [List.map_cons, List.cons.injEq] at e
       have : k' = .skip := (PKey.flav_eq_skip_iff k').mp (by rw [e.1]; rfl)
       subst this; exact .skip t qs
-  | last k hn hne => intro q e; cases q with
+  | @last t n k hn hne hd => intro q e; cases q with
     | nil => simp at e
     | cons k' qs =>
       simp only [List.map_cons, List.map_nil, List.cons.injEq, List.map_eq_nil_iff] at e
-      obtain ⟨_, rfl⟩ := e
-      exact .last k' hn hne
+      obtain ⟨e1, rfl⟩ := e
+      have ek : k'.toDKey = k.toDKey := by rw [← PKey.flav_toDKey k', e1, PKey.flav_toDKey]
+      exact .last k' hn hne (fun es he => by rw [ek]; exact hd es he)
   | @step t n k c ks hn hs _ ih => intro q e; cases q with
     | nil => simp at e
     | cons k' qs =>
@@ -436,9 +485,9 @@ theorem Ex.congr {h : Heap} {t : Ref} {p : Path} (x : Ex h t p) :
     | cons k' qs => exact .nd k' qs hn
 
 /-- Two spellings of a path that exists — any `Index(i)` written `i` or the other way round — set the same. -/
-theorem setPath_congr_flav (strict ip : Bool) (v : Ref) {h : Heap} {t : Ref} {p q : Path} (x : Ex h t p)
-    (e : q.map PKey.flav = p.map PKey.flav) : setPath strict ip h t q v = setPath strict ip h t p v := by
-  rw [← setPath_flav strict ip v q h t (x.congr q e), ← setPath_flav strict ip v p h t x, e]
+theorem setPath_congr_flav (strict : Bool) (v : Ref) {h : Heap} {t : Ref} {p q : Path} (x : Ex h t p)
+    (e : q.map PKey.flav = p.map PKey.flav) : setPath strict false h t q v = setPath strict false h t p v := by
+  rw [← setPath_flav strict v q h t (x.congr q e), ← setPath_flav strict v p h t x, e]
 
 /-- a path of plain keys (optionally cut short by `SELF`) that reads successfully exists -/
 theorem Ex.of_get {h : Heap} : ∀ (p : Path) (t x : Ref), PlainSelf p → get h t p = .ok x → Ex h t p := by
